@@ -1,0 +1,37 @@
+//go:build verif
+
+package multi
+
+// Contracts for the multi loader (C19), checked by /verif/jetvc. Comments only.
+
+//@ func (*multi.Multi).Exists
+//@   props C19
+//@   requires m != nil
+//@   modifies ghost NL
+//@   nopanic
+//@   loop 0 invariant -1 <= rangeindex && rangeindex < len(m.loaders) && visits("(Loader).Exists", 0) == rangeindex + 1
+//@   callsite (Loader).Exists 0 requires [loaders-asked-in-construction-order-with-the-same-path] l == m.loaders[caller.rangeindex + 1] && templatePath == caller.name
+//@   check [found-by-some-loader] result ==> lastret("(Loader).Exists", 0)
+//@   check [missing-means-every-loader-said-no] !result ==> visits("(Loader).Exists", 0) == len(m.loaders)
+
+//@ func (*multi.Multi).Open
+//@   props C19
+//@   requires m != nil
+//@   modifies ghost NL
+//@   nopanic
+//@   loop 0 invariant -1 <= rangeindex && rangeindex < len(m.loaders) && visits("(Loader).Open", 0) == rangeindex + 1
+//@   callsite (Loader).Open 0 requires [loaders-tried-in-construction-order-with-the-same-path] l == m.loaders[caller.rangeindex + 1] && templatePath == caller.name
+//@   check [answer-comes-from-the-first-loader-that-opens-it] result1 == nil ==> lastret("(Loader).Open", 1) == nil && result0 == lastret("(Loader).Open", 0)
+//@   check [failure-means-every-loader-failed] result1 != nil ==> visits("(Loader).Open", 0) == len(m.loaders)
+
+//@ func (*multi.Multi).AddLoaders
+//@   props C19
+//@   requires m != nil
+//@   modifies m.loaders
+//@   nopanic
+//@   ensures [added-loaders-go-last] len(m.loaders) == old(len(m.loaders)) + len(loaders) && forall(i, 0, old(len(m.loaders)), m.loaders[i] == old(m.loaders[i])) && forall(j, 0, len(loaders), m.loaders[old(len(m.loaders)) + j] == loaders[j])
+
+//@ func multi.NewLoader
+//@   props C19
+//@   nopanic
+//@   ensures fresh(result) && result.loaders == loaders
